@@ -18,6 +18,21 @@ def gen(ctx, cmds, n):
     return cases
 
 
+def zero_weights(ctx):
+    """weighted commands with a weight of 0 at every position: an input that contributes nothing still contributes its missing cells"""
+    import numpy
+    cases = []
+    for cmd, lat in (("WeightedSum", [2.0, -1.0, 0.5]), ("WeightedMean", [2.0, -1.0, 0.5]), ("FuzzyWeightedUnion", [1.0, -1.0, 0.5])):
+        for weights in ([1, 0, 2], [0, 1, 1], [1, 1, 0], [0.0, 2, 1], [1, 0.0, 0], [2, 0]):
+            n = len(weights)
+            ins = []
+            for k in range(n):
+                mask = [j == k for j in range(4)]          # input k is missing at cell k only; cell 3 is present everywhere
+                ins.append(numpy.ma.array(numpy.array([lat[(j + k) % 3] for j in range(4)]), mask=mask))
+            cases.append(eems.Case(cmd, {"Weights": list(weights)}, ins))
+    return cases
+
+
 def readers(ctx):
     """the two readers: cells the file marks as missing stay missing whatever MissingValue says; exactly the cells equal to the declared
     missing value are added; downstream commands never see the hidden numbers"""
@@ -60,7 +75,7 @@ def readers(ctx):
             ctx.fail("NetCDF EEMSRead: missing cells %r; the file marks %r missing and MissingValue=%r adds exactly the equal cells: %r" % (gm, mask, missing, want), desc)
     for i in range(ctx.budget(12, 400)):
         n = rng.randrange(1, 9)
-        vals = [rng.choice([-9999, -1, 0, 1, 2, 7, 2.5]) for _ in range(n)]
+        vals = [rng.choice([-9999, -1, 0, 1, 2, 7, 2.5, -9998.95, -9999.05, 4e-9, 2.00001, 2.5000001]) for _ in range(n)]      # incl. valid values close to a marker
         path = os.path.join(tmp, "c%d.csv" % (i % 5))
         open(path, "w").write("a,b\n" + "".join("%r,%r\n" % (v, 1) for v in vals))
         missing = rng.choice([None, -9999, 2, 2.5, 0])
@@ -83,6 +98,7 @@ def run(ctx):
     orc = numeric.oracle_c03(ctx)
     n = ctx.budget(14, 600)
     eems.run_stream(ctx, model, gen(ctx, list(eems.COMMANDS), n), "exec:all-commands:masks", on_result=orc)
+    eems.run_stream(ctx, model, zero_weights(ctx), "exec:zero-weights", on_result=orc)
     numeric.focus_search(ctx, model, lambda cmds, f: gen(ctx, cmds, n * f), orc)
     readers(ctx)
     return ctx.finish(
